@@ -124,7 +124,7 @@ fn run_script(ctx: Ctx, code: Arc<Vec<Instr>>, mut env: Env) -> BoxFuture<'stati
                     ctx.spawn(run_script(ctx.clone(), Arc::new(script.code.clone()), child));
                     pc += 1;
                 }
-                Instr::Abort { .. } | Instr::Joinh { .. } => panic!("join handles do not exist in the capability API"),
+                Instr::Abort { .. } | Instr::Joinh { .. } | Instr::Abortc { .. } => panic!("join handles do not exist in the capability API"),
                 Instr::Join { leaves, dst } => {
                     let futs: Vec<_> = leaves.iter().map(|l| leaf_future(&ctx, &mut env, l)).collect();
                     let vals = futures::future::join_all(futs).await;
